@@ -14,7 +14,9 @@ import (
 var (
 	IntDomain = []int{-3, -2, -1, 0, 1, 2, 3, 4, 5, 7, 8, 64, math.MinInt64, math.MaxInt64,
 		// neighbours that no float64 can tell apart
-		math.MaxInt64 - 1, math.MinInt64 + 1, 1 << 53, 1<<53 + 1, 1 << 60, 1<<60 + 1, -(1 << 60), -(1 << 60) - 1}
+		math.MaxInt64 - 1, math.MinInt64 + 1, 1 << 53, 1<<53 + 1, 1 << 60, 1<<60 + 1, -(1 << 60), -(1 << 60) - 1,
+		// around the 32-bit limits (signed and unsigned)
+		1<<31 - 1, 1 << 31, 1<<31 + 5, 1<<32 - 1, 1 << 32, -(1 << 31), -(1 << 31) - 1, 3000000000}
 	NaN2        = math.Float64frombits(0x7ff8000000000001 | 0xdead<<8) // NaN with another payload
 	NaNS        = math.Float64frombits(0x7ff0000000000001)             // NaN with the quiet bit clear
 	NaNNeg      = math.Float64frombits(0xfff8000000000000)             // NaN with the sign bit set
